@@ -103,7 +103,15 @@ func (c *Conn) StopReaderAfter(n uint64) { c.mu.Lock(); c.stopAfter = n; c.mu.Un
 type Session struct {
 	Relay *relay.Relay
 	Rec   *trace.Recorder
-	Host  string
+	// Stat records what the status specification (Status.tla) is about: the
+	// client connections' status registers (hooks), the relay's answers to
+	// the parties' stream calls, the server's status callbacks, and polls of
+	// Client.ConnStatus.
+	Stat      *trace.Recorder
+	statMu    sync.Mutex
+	statIDs   map[*mailbox.ClientConn]int
+	statCount int
+	Host      string
 
 	S, C, X *Party
 	Srv     *mailbox.Server
@@ -157,7 +165,9 @@ type Options struct {
 // New creates the relay, the parties, the listener and the dialer.
 func New(o Options) (*Session, error) {
 	installLinkTap()
-	s := &Session{Relay: relay.New(), Rec: trace.New(), Host: "relay.test:443",
+	installStatusTap()
+	s := &Session{Relay: relay.New(), Rec: trace.New(), Stat: trace.New(),
+		statIDs: map[*mailbox.ClientConn]int{}, Host: "relay.test:443",
 		handed: map[string][]*Conn{}, accepts: make(chan *Conn, 64),
 		sidName: map[string]string{}, Patience: o.Patience}
 	if s.Patience == 0 {
@@ -222,6 +232,15 @@ func New(o Options) (*Session, error) {
 		return false
 	}
 	s.Relay.OnEvent = func(e relay.Event) {
+		switch e.Ev {
+		case "recvErr", "sendErr":
+			// new with the status specification; the other trace
+			// specifications do not know them
+			s.Stat.Emit("relay", "op", e.Ev, "sid", s.SidName(e.SID), "who", whoOr(e.Who), "cls", e.Err)
+			return
+		case "openRecv", "deliver", "newbox", "delbox":
+			s.Stat.Emit("relay", "op", e.Ev, "sid", s.SidName(e.SID), "who", whoOr(e.Who), "cls", e.Err)
+		}
 		if e.Head == nil {
 			s.Rec.Emit("relay", "op", e.Ev, "sid", s.SidName(e.SID), "len", e.Len, "err", e.Err)
 			return
@@ -246,15 +265,18 @@ func New(o Options) (*Session, error) {
 	var err error
 	s.Srv, err = mailbox.NewVerifServer(s.Host, s.S.Data, s.Relay, func(st mailbox.ServerStatus) {
 		s.Rec.Emit("srvStatus", "status", int(st))
+		s.Stat.Emit("srvStatus", "st", int(st))
 	})
 	if err != nil {
 		return nil, err
 	}
-	s.Cli, err = mailbox.NewClient(s.ctx, s.Host, s.C.Data, mailbox.WithVerifHashMailClient(s.Relay))
+	s.Cli, err = mailbox.NewClient(context.WithValue(s.ctx, mailbox.VerifWhoKey{}, &whoTag{s, "c"}),
+		s.Host, s.C.Data, mailbox.WithVerifHashMailClient(s.Relay))
 	if err != nil {
 		return nil, err
 	}
-	s.XCli, err = mailbox.NewClient(s.ctx, s.Host, s.X.Data, mailbox.WithVerifHashMailClient(s.Relay))
+	s.XCli, err = mailbox.NewClient(context.WithValue(s.ctx, mailbox.VerifWhoKey{}, &whoTag{s, "x"}),
+		s.Host, s.X.Data, mailbox.WithVerifHashMailClient(s.Relay))
 	if err != nil {
 		return nil, err
 	}
